@@ -35,6 +35,27 @@ theorem encrypt_length (secret : Secret) (chal : Challenge) (rnd : Rnd) (p out :
 theorem dec_enc_stream (s : CipherState) (p : Bytes) : s.decrypt (s.encrypt p) = p :=
   Crypt.dec_enc_stream s p
 
+/-- the converse: every byte string is the ciphertext of its own decryption (the stream cipher is onto) -/
+theorem enc_dec_stream (s : CipherState) (c : Bytes) : s.encrypt (s.decrypt c) = c :=
+  Crypt.enc_dec_stream s c
+
+/-- `Encrypt` never maps two different listings to the same reply: for one secret, challenge and header draws, equal
+outputs mean equal plaintexts (so a client can never be shown a listing other than the one packed) -/
+theorem encrypt_injective (secret : Secret) (chal : Challenge) (rnd : Rnd) (p q out : Bytes)
+    (hp : encrypt? secret chal rnd p = some out) (hq : encrypt? secret chal rnd q = some out) : p = q := by
+  unfold encrypt? at hp hq
+  cases hs : newCipherState? (cryptKey secret chal rnd) with
+  | none => rw [hs] at hp; cases hp
+  | some st =>
+    rw [hs] at hp hq
+    cases hp
+    have h := Option.some.inj hq
+    exact (Crypt.encrypt_stream_injective st p q (List.append_cancel_left h).symm)
+
+/-- non-vacuity of `encrypt_injective`: its hypotheses are met (p = q = "A" under the game key) -/
+example : ∃ out, encrypt? gameSecret (Vector.replicate 8 1) (Vector.replicate 23 0) [0x41] = some out :=
+  Option.isSome_iff_exists.mp (encrypt_total _ _ _ _)
+
 /-- SDK key mixing over the header that `Encrypt` emitted yields the key `Encrypt` used -/
 theorem key_agree (secret : Secret) (hs : ∀ b ∈ secret.toList, b ≠ 0) (chal : Challenge) (rnd : Rnd) :
     GOA.mixKey secret.toList ((header secret chal rnd).drop 9) chal.toList =
